@@ -400,3 +400,40 @@ pub fn c20_owned_and_string_empty_owned_forms() {
     cover!(true, "end reached");
     sym::forget((a, b, c, d));
 }
+
+/// A 1-cell row as a slice on both sides, then a row that is TWO cells wider than anything before, in the given form.
+macro_rules! much_wider {
+    ($w:ident, $n:ident, $form:expr) => {{
+        let mut a = CR::default();
+        let mut b = CR::default();
+        let i0 = step!(a, b, $n.as_slice(), $n.as_slice());
+        let i1 = step!(a, b, $form, $w.as_slice());
+        assert!(i0 == 0 && i1 == 1, "C20: rows do not get dense indices");
+        let wide = a.index(i1);
+        assert!(wide.len() == 3 && wide.get(0) == $w[0] && wide.get(1) == $w[1] && wide.get(2) == $w[2], "C20: a row two cells wider than every earlier row reads back short or altered in this input form");
+        assert!(wide.iter().count() == 3, "C20: a much wider row iterates short in this input form");
+        assert!(a.index(i0).len() == 1 && a.index(i0).get(0) == $n[0], "C20: the earlier narrow row was altered by a much wider row");
+        sym::forget((a, b));
+    }};
+}
+
+// @h memw=8 prop=C20 tier=quick kind=proof inst="ColumnsRegion<MirrorRegion<u8>>: a row TWO cells wider than every earlier row, pushed as &Vec<u8> and as Vec<u8>" bounds="a 1-cell row, then a 3-cell row in the given form (fresh region pair per form); symbolic cells" desc="every form creates all the columns the row needs: same index, same storage and same reads as the slice form"
+#[cfg_attr(kani, kani::proof, kani::unwind(12))]
+pub fn c20_columns_much_wider_row_vec_forms() {
+    let w = sym::bytes::<3>();
+    let n = sym::bytes::<1>();
+    much_wider!(w, n, &vec![w[0], w[1], w[2]]);
+    much_wider!(w, n, vec![w[0], w[1], w[2]]);
+    cover!(true, "end reached");
+}
+
+// @h memw=8 prop=C20 tier=quick kind=proof inst="ColumnsRegion<MirrorRegion<u8>>: a row TWO cells wider than every earlier row, pushed as [u8; 3], &[u8; 3] and PushIter" bounds="a 1-cell row, then a 3-cell row in the given form (fresh region pair per form); symbolic cells" desc="as c20_columns_much_wider_row_vec_forms for the array and iterator forms"
+#[cfg_attr(kani, kani::proof, kani::unwind(12))]
+pub fn c20_columns_much_wider_row_array_forms() {
+    let w = sym::bytes::<3>();
+    let n = sym::bytes::<1>();
+    much_wider!(w, n, w);
+    much_wider!(w, n, &w);
+    much_wider!(w, n, PushIter(w.iter().copied()));
+    cover!(true, "end reached");
+}
